@@ -22,6 +22,7 @@ import (
 	"math"
 	"strings"
 
+	"github.com/enfein/mieru/v3/pkg/appctl/appctlpb"
 	"github.com/enfein/mieru/v3/pkg/common"
 	"github.com/enfein/mieru/v3/pkg/mathext"
 	"github.com/enfein/mieru/v3/pkg/protocol"
@@ -121,6 +122,13 @@ func refPdep(x, mask uint64) uint64 {
 	return dest
 }
 
+func lowOnes(n int64) uint64 {
+	if n >= 64 {
+		return math.MaxUint64
+	}
+	return uint64(1)<<uint(n) - 1
+}
+
 func refPext(x, mask uint64) uint64 {
 	var dest uint64
 	k := 0
@@ -210,17 +218,55 @@ func groupC17(n int) {
 	for k := 0; k < n/4; k++ {
 		validRot(int32(g.U64()))
 	}
-	// rotateLowEntropyMask has no export of its own: lowEntropyChunkMask returns exactly it for a valid rotation and an
-	// index >= 0 (the only way the codec calls it)
+	// rotateLowEntropyMask directly: every rotation value (also the invalid ones) and negative chunk indexes
 	rotate := func(m uint64, rot int32, idx int64) {
+		var got uint64
 		emit("rotateLowEntropyMask", []string{u(m), i(int64(rot)), i(idx)}, func() string {
-			v, err := protocol.VerifLEChunkMask(m, rot, int(idx))
-			if err != nil {
-				return "ERR"
-			}
-			return u(v)
+			got = protocol.VerifXLRotateLowEntropyMask(m, appctlpb.LowEntropyMaskRotation(rot), int(idx))
+			return u(got)
 		})
 		r.Distinct(fmt.Sprintf("rot/%d/%d", rot, idx%64))
+		// where the codec can call it (valid rotation, index >= 0) it is what lowEntropyChunkMask returns
+		if idx >= 0 && protocol.VerifLEValidRotation(rot) {
+			if v, err := protocol.VerifLEChunkMask(m, rot, int(idx)); err != nil || v != got {
+				r.Fail("chunk-mask-differs-from-rotate", fmt.Sprintf("lowEntropyChunkMask = %#x, %v; rotateLowEntropyMask = %#x", v, err, got),
+					map[string]string{"func": "rotateLowEntropyMask", "mask": u(m), "rotation": i(int64(rot)), "chunkIndex": i(idx)})
+			}
+		}
+	}
+	for _, rot := range []int32{-241, -240, -17, -16, -15, -1, 17, 31, 33, 241, 255, 256, 1 << 20, math.MaxInt32, math.MinInt32, math.MinInt32 + 1} {
+		for _, idx := range []int64{0, 1, 2, 63, 64, 65, -1, -2, -63, -64, -65, 8190, math.MaxInt64, math.MinInt64, math.MinInt64 + 1} {
+			rotate(g.U64(), rot, idx)
+			rotate(u64Boundary[g.Intn(len(u64Boundary))], rot, idx)
+		}
+	}
+	for _, rot := range valid {
+		for _, idx := range []int64{-1, -5, -64, -8190, math.MinInt64} {
+			rotate(g.U64(), rot, idx)
+		}
+	}
+	for k := 0; k < n/2; k++ {
+		rotate(randU64(g), int32(g.U64()), randI64(g))
+		rotate(randU64(g), int32(g.Intn(600))-300, int64(g.Intn(400))-200)
+	}
+	// lowBits: panics for a negative n (shift by a negative count); the translation then has no value
+	low := func(nn int64) {
+		var got uint64
+		out := emit("lowBits", []string{i(nn)}, func() string { got = protocol.VerifXLLowBits(int(nn)); return u(got) })
+		r.Distinct(fmt.Sprintf("lowbits/%v/%v", nn < 0, nn >= 64))
+		cs := map[string]string{"func": "lowBits", "n": i(nn)}
+		if nn >= 0 && (out == "PANIC" || got != lowOnes(nn)) {
+			r.Fail("lowbits-differs-from-definition", fmt.Sprintf("lowBits(%d) = %s, want the %d low bits set", nn, out, nn), cs)
+		}
+	}
+	for nn := int64(-70); nn <= 200; nn++ {
+		low(nn)
+	}
+	for _, nn := range i64Boundary {
+		low(nn)
+	}
+	for k := 0; k < n/4; k++ {
+		low(randI64(g))
 	}
 	for _, rot := range valid {
 		for _, idx := range []int64{0, 1, 2, 3, 31, 32, 63, 64, 65, 127, 128, 8190, 1 << 31, 1<<62 + 5, math.MaxInt64} {
@@ -276,13 +322,8 @@ func groupC14(n int) {
 	small := func(z int64) bool { return z > -(1<<61) && z < 1<<61 }
 	frag := func(mtu int64, t int) {
 		var got int64
-		// maxFragmentSizeInternal has no export of its own: maxFragmentSize with low entropy OFF returns exactly it
 		out := emit("maxFragmentSizeInternal", []string{i(mtu), fmt.Sprint(t)}, func() string {
-			v, err := protocol.VerifC14MaxFragmentSize(int(mtu), common.TransportProtocol(t), 0)
-			if err != nil {
-				return "ERR"
-			}
-			got = int64(v)
+			got = int64(protocol.VerifXLMaxFragmentSizeInternal(int(mtu), common.TransportProtocol(t)))
 			return i(got)
 		})
 		r.Distinct(fmt.Sprintf("frag/t%d/%v", t, mtu > overhead))
